@@ -304,8 +304,10 @@ func BasicAuthMiddlewareWithConfig(validTokens map[string]bool, config AuthRateL
 			// Check if client is locked out
 			if now.Before(tracker.lockedUntil) {
 				verifEvent("AuthCheck", clientIP, true, tracker.failures)
-				mu.Unlock()
+				// Read lockedUntil while still holding mu: recordAuthFailure
+				// writes it under the lock, and reading it after Unlock raced.
 				remaining := tracker.lockedUntil.Sub(now).Round(time.Second)
+				mu.Unlock()
 				log.Printf("[AUTH] IP %s is locked out for %v due to too many failed attempts", sanitizeLog(clientIP), remaining) // #nosec G706 -- sanitized
 				return SendError(ctx, 429, "too many failed authentication attempts, try again later")
 			}
